@@ -152,10 +152,12 @@ def _run_case(case, ctx):
             all_fixed = True
         sweeps = int(rs.randint(0, 4))
         # the set of fixed modes in any container a caller may reasonably pass
-        cont = gen.choice(rs, ["list", "list", "tuple", "range"])
+        cont = gen.choice(rs, ["list", "list", "tuple", "range", "array"])
         if cont == "range" and fixed != list(range(fixed[0], fixed[0] + len(fixed))):
             cont = "tuple"
-        fixed_arg = {"list": list(fixed), "tuple": tuple(fixed), "range": range(fixed[0], fixed[0] + len(fixed))}[cont]
+        if cont == "array" and algo != "nn_parafac_hals":
+            cont = "list"       # only the HALS variant documents "array of integers"
+        fixed_arg = {"list": list(fixed), "tuple": tuple(fixed), "range": range(fixed[0], fixed[0] + len(fixed)), "array": np.array(fixed)}[cont]
         desc2 = dict(desc, fixed_modes=fixed, sweeps=sweeps, container=cont)
         ctx.nontriv(dict(desc2, clause="fixed"))
         ctx.count("fixed_container/" + cont)
@@ -262,8 +264,15 @@ def _run_case(case, ctx):
         if fixed:
             ctx.nontriv(desc)
         init_dense, absb, _ = ref.tucker_dense(core, fs)
+        init_obj = (core.copy(), [f.copy() for f in fs])
+        if rs.rand() < 0.4:
+            # history: the same start object was first handed to the multiplicative-update variant (a quick pre-fit); this run still
+            # begins at the decomposition the caller supplied
+            ctx.count("start_object_used_by_an_earlier_run")
+            desc["start_object_reused"] = True
+            D.non_negative_tucker(X, rk, init=init_obj, n_iter_max=int(rs.randint(1, 4)), tol=0)
         try:
-            out = D.non_negative_tucker_hals(X, rk, n_iter_max=sweeps, init=(core.copy(), [f.copy() for f in fs]), fixed_modes=list(fixed) or None, tol=0,
+            out = D.non_negative_tucker_hals(X, rk, n_iter_max=sweeps, init=init_obj, fixed_modes=list(fixed) or None, tol=0,
                                              algorithm=gen.choice(rs, ["fista", "active_set"]))
         except np.linalg.LinAlgError:
             raise
